@@ -139,9 +139,23 @@ def finite(xs):
 
 # ----------------------------------------------------------------------------- generators
 
+def thr_nbrs(eps):
+    """the threshold itself and its two floating-point neighbours in the dtype whose epsilon `eps` is"""
+    if eps == common.EPS["float32"]:
+        import numpy as np
+        e = np.float32(eps)
+        return [float(np.nextafter(e, np.float32(0))), float(e), float(np.nextafter(e, np.float32(1)))]
+    return [math.nextafter(eps, 0.0), eps, math.nextafter(eps, 1.0)]
+
+
 def anchor_quats(eps):
     """deterministic list of (quaternion, tag): the thin regions of SO3_Log's three-way split and the angle-π seam"""
     out = []
+    # exactly at / one ulp below / one ulp above each threshold, both signs (axis-aligned so that ‖v‖ is exact)
+    for j, t in enumerate(thr_nbrs(eps)):
+        for sgn in (1.0, -1.0):
+            out.append(([math.sqrt(1 - t * t), 0.0, 0.0, sgn * t], f"w=eps{'-0+'[j]}ulp{'+' if sgn > 0 else '-'}"))
+            out.append(([0.0, sgn * t, 0.0, sgn * math.sqrt(1 - t * t)], f"v=eps{'-0+'[j]}ulp{'+' if sgn > 0 else '-'}"))
     axes = [[1.0, 0.0, 0.0], [0.0, -1.0, 0.0], [0.6, 0.0, 0.8], [0.36, 0.48, -0.8], [-2 / 7, 3 / 7, 6 / 7]]
     ws = [0.0, eps / 2, eps * (1 - 2 ** -10), eps * (1 + 2 ** -10), 2 * eps, 1e-12, 1e-8, 1e-4]
     for i, w in enumerate(ws):
@@ -170,7 +184,7 @@ def anchor_quats(eps):
 
 
 def anchor_sigmas(eps):
-    return [0.0, eps / 2, -eps / 2, eps * (1 - 2 ** -10), -eps * (1 + 2 ** -10), 2 * eps, -1e-12, 1e-9, -1e-6, 1e-3, 0.5, -0.7, 2.0, -3.0,
+    return [sg * t for t in thr_nbrs(eps) for sg in (1.0, -1.0)] + [eps * (1 + 2 ** -10), -eps * (1 - 2 ** -10)] + [0.0, eps / 2, -eps / 2, eps * (1 - 2 ** -10), -eps * (1 + 2 ** -10), 2 * eps, -1e-12, 1e-9, -1e-6, 1e-3, 0.5, -0.7, 2.0, -3.0,
             8.0, -8.0]
 
 
@@ -831,6 +845,288 @@ def check_views_and_batch(ctx: Ctx, case):
             ctx.fail(case, f"raises {name}: {label} on aliased LieTensors raised {type(ex).__name__}: {str(ex)[:120]}")
 
 
+# ----------------------------------------------------------------------------- API forms, grad modes, copies, memory, sizes
+
+def teq(a, b):
+    return a.shape == b.shape and a.dtype == b.dtype and bool(torch.equal(torch.nan_to_num(a, nan=1e33), torch.nan_to_num(b, nan=1e33)))
+
+
+def raw(t):
+    t = t.tensor() if hasattr(t, "ltype") else t
+    return t.detach().clone()
+
+
+def check_api_forms(ctx: Ctx, case):
+    """kinds 10/12/13/14/15 on one batch: every accepted way of making the same call must return the same VALUES
+    (function vs method vs ltype method, LieTensor vs plain Tensor vs Parameter, named constructor; plain vs requires_grad leaf
+    vs inside a graph vs no_grad vs inference_mode); copies (deepcopy / copy / pickle) follow their own law; results own
+    their memory (no overlap with the argument, no internal overlap, writing one returned item changes nothing else)."""
+    import copy
+    import pickle
+    P = U.pp()
+    kind, name, dtype = case["kind"], case["type"], case["dtype"]
+    D = U.dt(dtype)
+    grp = kind == "group"
+    width = U.GDIM[name] if grp else U.ADIM[name]
+    tname = name if grp else U.ALG[name]
+    lt_ = getattr(P, tname + "_type")
+    shape = tuple(case["shape"])
+    rows = torch.tensor(case["X" if grp else "x"], dtype=torch.float64).reshape(shape + (width,)).to(D)
+    ctor = getattr(P, tname)
+    if grp:
+        ops = {"Log": (lambda o: o.Log(), P.Log, lambda t: lt_.Log(t)),
+               "Inv": (lambda o: o.Inv(), P.Inv, lambda t: lt_.Inv(t)),
+               "Exp(Log)": (lambda o: o.Log().Exp(), lambda o: P.Exp(P.Log(o)), lambda t: lt_.Log(t).Exp())}
+    else:
+        ops = {"Exp": (lambda o: o.Exp(), P.Exp, lambda t: lt_.Exp(t)),
+               "Log(Exp)": (lambda o: o.Exp().Log(), lambda o: P.Log(P.Exp(o)), lambda t: lt_.Exp(t).Log())}
+
+    def mk():
+        return P.LieTensor(rows.clone(), ltype=lt_)
+
+    for label, (meth, func, on_tensor) in ops.items():
+        try:
+            ref = raw(meth(mk()))
+        except Exception as ex:
+            ctx.fail(case, f"raises {name}: {label} raised {type(ex).__name__}: {str(ex)[:120]}")
+            continue
+        forms = {
+            "function form pp.*": lambda: func(mk()),
+            "ltype method on a LieTensor": lambda: on_tensor(mk()),
+            "ltype method on a plain Tensor": lambda: on_tensor(rows.clone()),
+            "named constructor": lambda: meth(ctor(rows.clone())),
+            "pp.Parameter": lambda: meth(P.Parameter(mk())),
+            "requires_grad leaf": lambda: meth(P.LieTensor(rows.clone().requires_grad_(True), ltype=lt_)),
+            "inside an autograd graph": lambda: meth(P.LieTensor(rows.clone().requires_grad_(True) + 0.0, ltype=lt_)),
+            "torch.no_grad()": lambda: _with(torch.no_grad(), lambda: meth(mk())),
+            "torch.inference_mode()": lambda: _with(torch.inference_mode(), lambda: meth(mk())),
+            "no_grad on a requires_grad leaf": lambda: _with(torch.no_grad(), lambda: meth(P.LieTensor(rows.clone().requires_grad_(True), ltype=lt_))),
+            "copy.deepcopy": lambda: meth(copy.deepcopy(mk())),
+            "copy.copy": lambda: meth(copy.copy(mk())),
+            "pickle round trip": lambda: meth(pickle.loads(pickle.dumps(mk()))),
+        }
+        for fname, f in forms.items():
+            ctx.count(f"form.{fname}")
+            ctx.note_case(("form", fname, label, tname, dtype, shape), True)
+            try:
+                got = raw(f())
+            except Exception as ex:
+                ctx.fail(case | {"form": fname}, f"form {name}: {label} via {fname} raised {type(ex).__name__}: {str(ex)[:120]} ({dtype})")
+                continue
+            if not teq(got, ref):
+                d = float((got.double() - ref.double()).abs().max()) if got.shape == ref.shape else float("nan")
+                ctx.fail(case | {"form": fname}, f"form {name}: {label} via {fname} returns other values than the plain method call "
+                         f"(max difference {d:.3e}, shapes {tuple(got.shape)} vs {tuple(ref.shape)}, {got.dtype} vs {ref.dtype})")
+        # copies follow their own law
+        try:
+            A = mk()
+            B = copy.deepcopy(A)
+            B.tensor().mul_(1.0)
+            if grp:
+                B.copy_(B.Inv())
+            else:
+                B.tensor().mul_(0.5)
+            if not teq(raw(meth(A)), ref):
+                ctx.fail(case, f"copy {name}: updating a deepcopy in place changed {label} of the original ({dtype})")
+            if not teq(raw(meth(B)), raw(meth(P.LieTensor(B.tensor().clone(), ltype=lt_)))):
+                ctx.fail(case, f"copy {name}: {label} of an updated deepcopy does not describe its current state ({dtype})")
+        except Exception as ex:
+            ctx.fail(case, f"raises {name}: deepcopy / in-place update raised {type(ex).__name__}: {str(ex)[:120]}")
+        # outputs own their memory
+        try:
+            Xo = mk()
+            arg_before = Xo.tensor().clone()
+            out = meth(Xo)
+            ot = out.tensor() if hasattr(out, "ltype") else out
+            a0, a1 = Xo.tensor().untyped_storage().data_ptr(), Xo.tensor().untyped_storage().data_ptr() + Xo.tensor().untyped_storage().nbytes()
+            o0 = ot.untyped_storage().data_ptr()
+            if a0 <= o0 < a1 and ot.numel() > 0:
+                ctx.fail(case, f"memory {name}: the result of {label} shares storage with its argument ({dtype})")
+            if ot.numel() > 0 and torch._debug_has_internal_overlap(ot) == 1:
+                ctx.fail(case, f"memory {name}: the result of {label} overlaps itself (stride-0 / expanded) — items are not independent ({dtype})")
+            flat = ot.detach().reshape(-1, ot.shape[-1]) if ot.dim() > 1 else ot.detach().reshape(1, -1)
+            if flat.shape[0] >= 2:
+                keep = flat.clone()
+                with torch.no_grad():
+                    flat[0] += 1.0
+                    changed_others = not teq(flat[1:], keep[1:])
+                if changed_others:
+                    ctx.fail(case, f"memory {name}: writing item 0 of the result of {label} changed other returned items ({dtype})")
+            if not teq(Xo.tensor().detach(), arg_before):
+                ctx.fail(case, f"memory {name}: writing into the result of {label} changed the argument ({dtype})")
+            if not teq(raw(meth(mk())), ref):
+                ctx.fail(case, f"memory {name}: writing into the result of {label} changed a later call ({dtype})")
+        except Exception as ex:
+            ctx.fail(case, f"raises {name}: memory-ownership probe of {label} raised {type(ex).__name__}: {str(ex)[:120]}")
+
+
+def _with(cm, f):
+    with cm:
+        return f()
+
+
+SHAPES = [(1,), (3,), (4,), (7,), (8,), (11,), (1, 3), (3, 1), (3, 3), (3, 4), (4, 3), (3, 7), (8, 3), (6, 3), (1, 1, 3), (3, 1, 1),
+          (3, 3, 3), (2, 3, 5), (5, 3, 2), (1, 1)]
+
+
+def run_shape_sweep(ctx: Ctx):
+    """kind 16: batch extents equal to small special numbers (1, exactly 3, the feature dimensions 3/4/6/7/8, primes) in every
+    batch position, for every op of the property (Log, Exp, Inv and their compositions): the batched result must have the batch
+    shape and equal, item by item, the same op on the item alone passed WITHOUT batch dimensions."""
+    P = U.pp()
+    rng = ctx.rng
+    for dtype in ("float64", "float32"):
+        eps = common.EPS[dtype]
+        D = U.dt(dtype)
+        anchors = anchor_quats(eps)
+        sig = anchor_sigmas(eps)
+        shapes = SHAPES if dtype == "float64" else [sh for sh in SHAPES if 3 in sh][:8]
+        for name in U.GROUPS:
+            for kind in ("group", "alg"):
+                grp = kind == "group"
+                width = U.GDIM[name] if grp else U.ADIM[name]
+                tname = name if grp else U.ALG[name]
+                lt_ = getattr(P, tname + "_type")
+                for si, shape in enumerate(shapes):
+                    n = int(math.prod(shape))
+                    rows = []
+                    for k in range(n):
+                        if grp:
+                            q = anchors[(7 * k + 3 * si + 1) % len(anchors)][0]
+                            out = (U.vec(rng, TR_ANCHORS[(k + si) % 5]) if name in ("SE3", "Sim3") else []) + list(q)
+                            if name in ("RxSO3", "Sim3"):
+                                out.append(math.exp(sig[(k * 5 + si) % len(sig)]))
+                        else:
+                            out, _ = gen_alg_item(rng, name, eps)
+                        rows.append(out)
+                    T = torch.tensor(rows, dtype=torch.float64).to(D).reshape(shape + (width,))
+                    case = {"kind": kind, "type": name, "dtype": dtype, "shape": list(shape), ("X" if grp else "x"): T.double().reshape(-1, width).tolist(),
+                            "tags": [], "id": f"shape-{shape}"}
+                    for label, (fn, okind) in ops_of(kind, name).items():
+                        ow = (U.ADIM if okind == "alg" else U.GDIM)[name]
+                        ctx.count(f"shape.{'x'.join(map(str, shape))}")
+                        ctx.note_case(("shape", shape, label, tname, dtype), True)
+                        try:
+                            got = fn(P.LieTensor(T.clone(), ltype=lt_))
+                            gt = got.tensor()
+                            alone = torch.stack([fn(P.LieTensor(T.reshape(-1, width)[i].clone(), ltype=lt_)).tensor() for i in range(n)])
+                        except Exception as ex:
+                            ctx.fail(case, f"size {name}: {label} on batch shape {shape} raised {type(ex).__name__}: {str(ex)[:120]} ({dtype})")
+                            continue
+                        if tuple(gt.shape) != shape + (ow,) or gt.dtype != D:
+                            ctx.fail(case, f"size {name}: {label} on batch shape {shape} returned shape {tuple(gt.shape)} dtype {gt.dtype} ({dtype})")
+                            continue
+                        r, k = block_same(name, okind, gt.double().reshape(-1, ow), alone.double().reshape(-1, ow), dtype)
+                        if not r <= 1.0:
+                            ctx.fail(small({**case, "shape": [n]}, k, batch_shape=list(shape), which=label),
+                                     f"size {name}: {label} of item {k} in a batch of shape {shape} differs from {label} of the item alone by "
+                                     f"{r:.3g}×64 ulp ({dtype}): {gt.reshape(-1, ow)[k].tolist()} vs {alone.reshape(-1, ow)[k].tolist()}")
+
+
+def error_atomic_probe(ctx: Ctx, spec):
+    """kind 11: calls that raise (Log of an algebra element, Exp of a group element, wrong last dimension, wrong argument type)
+    must leave no trace — the fixed corpus evaluates to bit-identical values before and after them."""
+    P = U.pp()
+
+    def corpus():
+        out = []
+        for dtype in ("float64", "float32"):
+            for name in U.GROUPS:
+                g = torch.tensor(spec[dtype][name]["X"], dtype=torch.float64).to(U.dt(dtype))
+                a = torch.tensor(spec[dtype][name]["x"], dtype=torch.float64).to(U.dt(dtype))
+                X = P.LieTensor(g, ltype=U.ltype(name))
+                x = P.LieTensor(a, ltype=getattr(P, U.ALG[name] + "_type"))
+                out += [raw(X.Log()), raw(X.Inv()), raw(x.Exp()), raw(x.Exp().Log())]
+        return out
+    try:
+        before = corpus()
+    except Exception as ex:
+        ctx.fail({"kind": "error-atomic"}, f"raises: corpus evaluation raised {type(ex).__name__}: {str(ex)[:120]}")
+        return
+    bad_calls = []
+    for name in U.GROUPS:
+        alg_t, grp_t = getattr(P, U.ALG[name] + "_type"), U.ltype(name)
+        gd, ad = U.GDIM[name], U.ADIM[name]
+        bad_calls += [
+            (f"{U.ALG[name]}.Log()", lambda ad=ad, alg_t=alg_t: P.LieTensor(torch.zeros(2, ad, dtype=torch.float64), ltype=alg_t).Log()),
+            (f"{name}.Exp()", lambda gd=gd, grp_t=grp_t: P.LieTensor(torch.ones(2, gd, dtype=torch.float64), ltype=grp_t).Exp()),
+            (f"{name}_type.Log(wrong last dim)", lambda gd=gd, grp_t=grp_t: grp_t.Log(torch.ones(2, gd + 1, dtype=torch.float64))),
+            (f"{U.ALG[name]}_type.Exp(wrong last dim)", lambda ad=ad, alg_t=alg_t: alg_t.Exp(torch.ones(3, ad + 2, dtype=torch.float32))),
+            (f"{name}_type.Log(python list)", lambda grp_t=grp_t: grp_t.Log([[1.0] * 3])),
+            (f"{name}_type.Log(integer tensor)", lambda gd=gd, grp_t=grp_t: grp_t.Log(torch.ones(2, gd, dtype=torch.int64))),
+        ]
+    raised = 0
+    for label, f in bad_calls:
+        try:
+            f()
+        except Exception:
+            raised += 1
+        ctx.count("error-atomic.bad-call")
+    ctx.count("error-atomic.bad-call.raised", raised)
+    try:
+        after = corpus()
+    except Exception as ex:
+        ctx.fail({"kind": "error-atomic"}, f"atomic: after {raised} failing calls the corpus evaluation raises {type(ex).__name__}: {str(ex)[:120]}")
+        return
+    ctx.note_case(("error-atomic",), True)
+    for k, (b, a) in enumerate(zip(before, after)):
+        if not teq(a, b):
+            d = float((a.double() - b.double()).abs().max()) if a.shape == b.shape else float("nan")
+            ctx.fail({"kind": "error-atomic", "index": k},
+                     f"atomic: after failing calls (Log of an algebra element, wrong shapes/types) result #{k} of the fixed corpus "
+                     f"[Log, Inv, Exp, Log(Exp) per type/dtype] changed by {d:.3e}")
+            break
+
+
+def interleave_probe(ctx: Ctx, spec):
+    """kind 17: the fixed corpus evaluated in several call orders inside this process (types reversed, dtypes alternating, all
+    Exp before all Log, group/algebra interleaved): every result must be bit-identical to the first evaluation."""
+    P = U.pp()
+    jobs = []
+    for dtype in ("float64", "float32"):
+        for name in U.GROUPS:
+            g = torch.tensor(spec[dtype][name]["X"], dtype=torch.float64).to(U.dt(dtype))
+            a = torch.tensor(spec[dtype][name]["x"], dtype=torch.float64).to(U.dt(dtype))
+            for op in ("Log", "Inv", "Exp", "LogExp", "ExpLog", "LogInv"):
+                jobs.append((dtype, name, op, g, a))
+
+    def run_job(j):
+        dtype, name, op, g, a = j
+        X = P.LieTensor(g.clone(), ltype=U.ltype(name))
+        x = P.LieTensor(a.clone(), ltype=getattr(P, U.ALG[name] + "_type"))
+        return raw({"Log": lambda: X.Log(), "Inv": lambda: X.Inv(), "Exp": lambda: x.Exp(), "LogExp": lambda: x.Exp().Log(),
+                    "ExpLog": lambda: X.Log().Exp(), "LogInv": lambda: X.Inv().Log()}[op]())
+    orders = {
+        "as listed": list(range(len(jobs))),
+        "reversed": list(reversed(range(len(jobs)))),
+        "dtypes alternating": [i for pair in zip(range(len(jobs) // 2), range(len(jobs) // 2, len(jobs))) for i in pair],
+        "by op across types": sorted(range(len(jobs)), key=lambda i: (jobs[i][2], jobs[i][1], jobs[i][0])),
+        "Sim3 first, float32 first": sorted(range(len(jobs)), key=lambda i: (-U.GROUPS.index(jobs[i][1]), jobs[i][0] != "float32")),
+    }
+    first = None
+    for oname, order in orders.items():
+        res = {}
+        for i in order:
+            try:
+                res[i] = run_job(jobs[i])
+            except Exception as ex:
+                ctx.fail({"kind": "interleave", "order": oname}, f"raises: {jobs[i][2]} on {jobs[i][1]} ({jobs[i][0]}) raised {type(ex).__name__}: {str(ex)[:120]}")
+                return
+        ctx.count(f"interleave.{oname}")
+        ctx.note_case(("interleave", oname), True)
+        if first is None:
+            first = res
+            continue
+        for i in range(len(jobs)):
+            if not teq(res[i], first[i]):
+                dtype, name, op, _, _ = jobs[i]
+                d = float((res[i].double() - first[i].double()).abs().max()) if res[i].shape == first[i].shape else float("nan")
+                ctx.fail({"kind": "interleave", "order": oname, "type": name, "dtype": dtype, "op": op},
+                         f"interleave {name}: {op} ({dtype}) returns other values (max difference {d:.3e}, dtype {res[i].dtype}) when the calls of "
+                         f"this process are made in the order '{oname}' — state shared between types / dtypes")
+                return
+
+
 TR_ANCHORS = [0.0, 1.0, 1e-3, 37.0, 1e3, 1e-20, 1e6, 1e-30, 1e12]
 
 
@@ -859,6 +1155,10 @@ def run_anchor_sweep(ctx: Ctx):
             case = {"kind": "group", "type": name, "dtype": dtype, "shape": [len(rows)], "X": X64.tolist(), "tags": tags, "id": f"anchors-{name}-{dtype}"}
             eval_group_case(ctx, case, pend)
             check_views_and_batch(ctx, case)
+            check_api_forms(ctx, {**case, "X": case["X"][::5], "tags": tags[::5], "shape": [len(case["X"][::5])]})
+            ident = [0.0] * (3 if name in ("SE3", "Sim3") else 0) + [0.0, 0.0, 0.0, 1.0] + ([1.0] if name in ("RxSO3", "Sim3") else [])
+            for hom, tg in ((ident, "identity"), (case["X"][40], "generic")):      # homogeneous batches (all items equal)
+                check_api_forms(ctx, {**case, "X": [hom] * 3, "tags": [tg] * 3, "shape": [3], "id": f"homogeneous-{tg}"})
             sub = {**case, "X": case["X"][::6], "tags": tags[::6], "shape": [len(case["X"][::6])]}
             mp_check_log(ctx, sub)
             ctx.count(f"mpmath-log.{name}.{dtype}", len(sub["X"]))
@@ -873,7 +1173,7 @@ def run_algebra_sweep(ctx: Ctx):
     axes = [[1.0, 0.0, 0.0], [0.0, 0.0, -1.0], [0.6, 0.0, 0.8], [0.36, 0.48, -0.8], [-2 / 7, 3 / 7, 6 / 7]]
     for dtype in ("float64", "float32"):
         eps = common.EPS[dtype]
-        lad = common.ladder(eps) + common.ladder_big() + [math.pi * (1 - 8 * eps), math.pi * (1 - 64 * eps), math.pi - 1e-4]
+        lad = common.ladder(eps) + common.ladder_big() + [math.pi * (1 - 8 * eps), math.pi * (1 - 64 * eps), math.pi - 1e-4] + thr_nbrs(eps)
         sig = anchor_sigmas(eps)
         for name in U.GROUPS:
             rows, tags = [], []
@@ -891,6 +1191,9 @@ def run_algebra_sweep(ctx: Ctx):
             case = {"kind": "alg", "type": name, "dtype": dtype, "shape": [len(rows)], "x": x64.tolist(), "tags": tags, "id": f"ladder-{name}-{dtype}"}
             eval_alg_case(ctx, case, pend)
             check_views_and_batch(ctx, case)
+            check_api_forms(ctx, {**case, "x": case["x"][::4], "tags": tags[::4], "shape": [len(case["x"][::4])]})
+            for hom, tg in (([0.0] * U.ADIM[name], "zero"), (case["x"][19], "generic")):
+                check_api_forms(ctx, {**case, "x": [hom] * 3, "tags": [tg] * 3, "shape": [3], "id": f"homogeneous-{tg}"})
     flush(ctx, pend)
 
 
@@ -905,6 +1208,9 @@ def run(ctx: Ctx):
     check_inverse_contract(ctx, 12)
     run_anchor_sweep(ctx)
     run_algebra_sweep(ctx)
+    run_shape_sweep(ctx)
+    interleave_probe(ctx, spec)
+    error_atomic_probe(ctx, spec)
     run_cases(ctx, ctx.pick(550, 9000), ctx.pick(380, 6000))
     order_probe_finish(ctx, spec, proc)
     if DIAG:
